@@ -14,13 +14,12 @@ THEOREM_FILES = [("NdInterp/Props/C15.lean", "C15_")]
 RULE = ("metamorphic pairs on the real code. At Q (exact equality of rationals): data x c (any rational c, boundary derivative values "
         "x c), axis and queries x c>0 (FirstDeriv v/c, SecondDeriv v/c^2), common shift, superposition of two data sets (boundary values "
         "added); Linear, Bilinear (independent factors for x and y), every spline boundary configuration incl. Periodic and per-lane "
-        "Mixed; in range and extrapolated. At f64 bit-for-bit: data x 2^k (k in -20..20), negation, axis x 2^k, shifts on a common dyadic "
+        "Mixed; in range and extrapolated; a Periodic family with queries and shifts many periods away from the origin. At f64 bit-for-bit: data x 2^k (k in -20..20), negation, axis x 2^k, shifts on a common dyadic "
         "grid; superpositions within tolerance. base cases also go through the model correspondence. non-trivial = pair whose two cases "
         "differ")
-PARTIAL = ["spline, proved end to end (assembly + solve + evaluation) for every non-periodic boundary pair: data x c (C15_spline_scale_data), common "
-           "shift (C15_spline_shift), axis x c>0 with converted boundary values (C15_spline_scale_axis, by uniqueness C03_unique); spline "
-           "superposition is proved for the solver in its right-hand sides (fwd_add/back_add, Lemmas/Linearity) but not yet lifted through the "
-           "row assembly, and the Periodic scalings are not stated as theorems: both are checked exactly at Q by the metamorphic runs",
+PARTIAL = ["spline, proved end to end (assembly + solve + evaluation) for every non-periodic boundary pair: data x c (C15_spline_scale_data), "
+           "superposition (C15_spline_add), common shift (C15_spline_shift), axis x c>0 with converted boundary values (C15_spline_scale_axis, "
+           "by uniqueness C03_unique); the Periodic scalings are not stated as theorems: checked exactly at Q by the metamorphic runs",
            "bit-for-bit at f64 rests on exact power-of-two scaling absent over/underflow (C15_hom_linear_data states the data-flow part)"]
 ASSUMPTIONS = ["no overflow/underflow for the f64 bitwise runs (magnitudes kept moderate)"]
 
@@ -130,6 +129,18 @@ def extra(rng, tier):
             bc, lanes = c02.rand_bc(rng, "F", L, trailing)
             qs = [float(rng.randint(int(xs[0] * 16) - (40 if ext else 0), int(xs[-1] * 16) + (40 if ext else 0))) / 16 for _ in range(5)]
         L = gen.lanes_of(shape)
+        if kind == "spl" and rng.random() < 0.3:
+            # periodic family: extrapolating periodic spline, queries many periods away, shifts by many periods (the wrap must be
+            # relative to the axis, not to the origin)
+            bc, ext = "per", True
+            P = xs[-1] - xs[0]
+            kk = rng.choice([-1000, -37, -5, -2, 2, 3, 11, 640])
+            if S == "Q":
+                d = P * kk + Fr(rng.randint(-8, 8), 4)
+                qs = qs + [xs[0] + P * Fr(rng.randint(-300, 300), 7) for _ in range(3)]
+            else:
+                d = float(int(P * 16) * kk) / 16
+                qs = qs + [float(int((xs[0] + P * rng.randint(-300, 300) / 7) * 16)) / 16 for _ in range(3)]
         if kind == "lin":
             bc = None
         elif bc == "per":
